@@ -283,6 +283,7 @@ def run_suite(pid, suite, tier, seed, rundir, replay=None, cone_ok=True):
         return res
     res["ran"] = True
     res["summary"] = json.load(open(sp))
+    res["summary"]["shards"] = res["summary"].get("shards") or []
     if cone_ok and res["summary"].get("shards"):
         bad, errs = run_cases(sdir, res["summary"]["shards"])
         for (s, i) in bad:
